@@ -199,7 +199,24 @@ fn annotation_src(ty: &Type) -> Option<String> {
         } => None,
         Type::Any => None,
         _ if ty.is_no_value() => None,
+        // `Any` and error types have no hint syntax, and `NoValue`
+        // is what calls of unannotated functions are inferred as,
+        // so a type that contains them (e.g. `Fun<(Any), Any>` for
+        // an unannotated lambda) is not a hint worth suggesting.
+        _ if mentions_unhintable(ty) => None,
         _ => Some(ty.to_string()),
+    }
+}
+
+fn mentions_unhintable(ty: &Type) -> bool {
+    match ty {
+        Type::Any | Type::Error { .. } => true,
+        Type::UserDefined { args, .. } => ty.is_no_value() || args.iter().any(mentions_unhintable),
+        Type::Tuple(items) => items.iter().any(mentions_unhintable),
+        Type::Fun {
+            params, return_, ..
+        } => params.iter().any(mentions_unhintable) || mentions_unhintable(return_),
+        Type::TypeParameter(_) => false,
     }
 }
 
